@@ -390,7 +390,7 @@ fn run_status(acc: &mut Acc, tier: Tier) {
         }
     }
     // every millisecond value in a range: the decoded duration is exactly the decimal sent
-    let mut ms_values: Vec<u64> = (0..=tier.pick(20_000u64, 200_000u64)).collect();
+    let mut ms_values: Vec<u64> = (0..=tier.pick(20_000u64, 1_000_000u64)).collect();
     for big in [59_999u64, 3_599_999, 86_400_001, 4_294_967_295, 4_294_967_296_007, 9_007_199_254_740] {
         ms_values.push(big);
     }
@@ -729,7 +729,7 @@ pub fn run(tier: Tier) -> i32 {
     let mut cov = Coverage::default();
     cov.evaluations = acc.replies;
     cov.distinct_nontrivial = acc.nontrivial.min(acc.replies);
-    cov.rule = "status: every subset of the 11 optional field groups (2048) in MPD's order, a spread (thorough: all) of them also reversed / every rotation / every adjacent transposition, every field at each boundary or enum value one at a time, every millisecond value 0.000..20.000 s (thorough: ..200.000 s) for elapsed/duration, every out-of-domain spelling per field; stats, count (plain, grouped with 1..3 groups and both songs/playtime orders), list (plain, grouped by 1 and 2 tags in both group_by orders, repeated and changing keys), listplaylists, sticker get/list/find with '=' in values, channels, readmessages, tagtypes, update/rescan, replay_gain_status, addid; non-trivial = every reply except the reordered copies".to_string();
+    cov.rule = "status: every subset of the 11 optional field groups (2048) in MPD's order, a spread (thorough: all) of them also reversed / every rotation / every adjacent transposition, every field at each boundary or enum value one at a time, every millisecond value 0.000..20.000 s (thorough: ..1000.000 s) for elapsed/duration, every out-of-domain spelling per field; stats, count (plain, grouped with 1..3 groups and both songs/playtime orders), list (plain, grouped by 1 and 2 tags in both group_by orders, repeated and changing keys), listplaylists, sticker get/list/find with '=' in values, channels, readmessages, tagtypes, update/rescan, replay_gain_status, addid; non-trivial = every reply except the reordered copies".to_string();
     cov.states = acc.replies;
     cov.transitions = acc.checks;
     cov.traces = acc.replies;
